@@ -125,6 +125,8 @@ class Ctx:
         self.lockstep_bad = None
         self.caller_u0 = None
         self.work = {}  # id(problem) -> counts
+        if sc.get('spy_stats'):
+            self.stat_writes = []
 
     def tick(self):
         self.seq += 1
@@ -579,6 +581,8 @@ def run(sc, res=None, log=None, extra_hooks=(), counting=False, keep_ctrl=False)
     tr.stats = None
     warnings.simplefilter('ignore')
     np.seterr(all='ignore')
+    if sc.get('spy_stats'):
+        install_stats_spy()
     ctrl = build(sc, ctx, extra_hooks=extra_hooks, counting=counting)
     tr.ctrl = ctrl
     rc = sc['config']['run']
@@ -617,3 +621,35 @@ def accepted(ctx):
     in start-time order."""
     acc = [a for a in ctx.attempts if a.get('post') and a.get('accepted', False)]
     return sorted(acc, key=lambda a: (a['block'], a['slot']))
+
+
+# ------------------------------------------------------------------------------------------------ stats spy
+_SPY_INSTALLED = [False]
+
+
+def install_stats_spy():
+    """Record every write into the statistics (key, value digest, order) -- class-level wrapper, idempotent."""
+    if _SPY_INSTALLED[0]:
+        return
+    from pySDC.core.hooks import Hooks
+
+    orig_add, orig_inc = Hooks.add_to_stats, Hooks.increment_stats
+
+    def key_of(self, kwargs):
+        meta = {**self.meta_data, **kwargs, 'num_restarts': self._Hooks__num_restarts}
+        return self.entry(**meta)
+
+    def add_to_stats(self, value, **kwargs):
+        ctx = CURRENT_CTX[0]
+        if ctx is not None and hasattr(ctx, 'stat_writes'):
+            ctx.stat_writes.append(('add', key_of(self, kwargs), value, type(self).__name__, ctx.seq))
+        return orig_add(self, value, **kwargs)
+
+    def increment_stats(self, value, initialize=None, **kwargs):
+        ctx = CURRENT_CTX[0]
+        if ctx is not None and hasattr(ctx, 'stat_writes'):
+            ctx.stat_writes.append(('inc', key_of(self, kwargs), value, type(self).__name__, ctx.seq))
+        return orig_inc(self, value, initialize=initialize, **kwargs)
+
+    Hooks.add_to_stats, Hooks.increment_stats = add_to_stats, increment_stats
+    _SPY_INSTALLED[0] = True
